@@ -1,5 +1,8 @@
 import CV.Proofs.InvForest
 import CV.Proofs.InvAnnounce
+import CV.Proofs.InvPending
+import CV.Proofs.InvLoop
+import CV.Proofs.InvCacheMain
 /-
 C07 — the component tree stays a consistent forest under register / unregister.
 
@@ -18,6 +21,9 @@ in which every component is a detached root (`InitForest`).  Proofs: CV/Proofs/I
   announced_only_partial  no other step fires `registered` / `unregistered` (sessions without timers)
   queued_not_lost       the child's queued events are appended to the new root's queue
   nothing_after_detach  the former root's `getHandlers` sees nothing of the detached subtree
+  pending_resolves_partial / complete_dispatch_detaches
+                        a draining unregistration fires `prepare_unregister_complete` (guarded runs of
+                        C05), whose dispatch calls the detach handler while the component is in the tree
 -/
 namespace CV.C07
 open CV.Core
@@ -225,5 +231,172 @@ example : ForestInv exDetach.st ∧ exDetach.stack = .invoke 0 0 0 :: [] ∧ exD
   · have : d = 1 := by simpa [exDetach, St.comp] using hd
     subst this; decide
   · simp [exDetach, St.comp] at hd
+
+section pending
+open CV.Core.C05 CV.Core.Live
+
+/-! ### an unregistration whose closure drains does complete (`pending_resolves`)
+
+`unregister()` sets `_unregister_pending` and fires `prepare_unregister(self)` with
+`complete = True`, `complete_channels = (self,)` (`St.unregister`).  C05 counts the event's closure
+in `event.effects`; the `_effectDone` iteration that takes the count to 0 fires
+`prepare_unregister_complete` to the component; the dispatch of THAT event calls the component's
+`_on_prepare_unregister_complete`, whose step is the detach step of `detach_moves_subtree`
+(it clears the flag). -/
+
+/-- **A draining unregistration completes** (partial: guarded runs of C05).  `e` is the
+    `prepare_unregister` event of component `x` (name, `complete`, `complete_channels = (x,)` as
+    `unregister()` builds it), tracked, and this `_effectDone` iteration takes its count to 0.
+    Then (a) its closure HAS drained - its own handlers are done and no event is linked under it
+    (C05 `complete_only_when_drained_partial`); (b) the step fires exactly one fresh event
+    `prepare_unregister_complete` on channel `x`; (c) `e` is untracked afterwards, so this happens
+    once.  With C05 `complete_when_quiescent_partial` (a tracked event is never stuck at count 0
+    between runs) and `complete_dispatch_detaches` below: once the closure has drained the
+    completion event is on its way to the component.
+
+    FULL statement: the same over `Reach`.  (b) and (c) hold from every configuration; (a) is false
+    without C05's `Guard` (`pending_resolves_witness`: a handler of the event that runs the task loop
+    while a generator handler of the same event is pending makes `_eventDone` go through twice, and
+    the `_complete` event - here `prepare_unregister_complete`, hence the detach - comes while an
+    event fired by one of its handlers is still being handled).  Known finding of C05. -/
+theorem pending_resolves_partial {s0 : St} (h0 : InitEff s0) (c : Cfg) (hr : ReachG s0 c)
+    (r e x : Nat) (k : List Frame) (hs : c.stack = .effectDone r e true :: k) (hx : c.exn = none)
+    (hname : (c.st.ev e).name = Name.prepareUnregister) (hcomp : (c.st.ev e).complete = true)
+    (hch : (c.st.ev e).completeChans = some [.inst x])
+    (htr : (c.st.ev e).cause ≠ none) (hz : ¬ ((c.st.ev e).effects - 1 > 0)) :
+    ((c.st.ev e).selfDone = true ∧ ∀ y, y ≠ e → (c.st.ev y).cause ≠ some e) ∧
+    (step c).st.log =
+      Entry.fire c.st.evs.length (Name.prepareUnregister.child sfxComplete) [.inst x] 0 :: c.st.log ∧
+    ((step c).st.ev e).cause = none ∧ ((step c).st.ev e).effects = 0 := by
+  obtain ⟨P, hP⟩ : ∃ P, (c.st.ev e).cause = some P := by
+    cases hh : (c.st.ev e).cause with
+    | none => exact absurd hh htr
+    | some P => exact ⟨P, rfl⟩
+  refine ⟨(reachG_cinv h0 c hr).drained hs htr hz, ?_, ?_⟩
+  · rw [step_cons c _ k hs hx]
+    show (c.effectDone k r e true).st.log = _
+    rw [Cfg.effectDone_st, effectDone1_complete_log c.st r e P hP hz hcomp, hname, hch]
+    rfl
+  · rw [step_cons c _ k hs hx]
+    show ((c.effectDone k r e true).st.ev e).cause = none ∧ ((c.effectDone k r e true).st.ev e).effects = 0
+    rw [Cfg.effectDone_st]
+    exact St.e5_effectDone1_cleared c.st r e P true hP hz
+
+/-- **The completion event detaches the component.**  `_dispatcher(e)` on a root `r` (reachable
+    configuration, `e` not cancelled - in particular the `prepare_unregister_complete` event of
+    `pending_resolves_partial`) where `h`, the `_on_prepare_unregister_complete` handler of `x`,
+    is registered (it matches `e` at a component of `r`'s tree, C01): if the dispatcher call runs
+    to its end then `h` was called on the way - and that call is the detach step: afterwards
+    `_unregister_pending` of `x` is cleared - or the event was stopped by a handler of at least
+    `h`'s priority (`CutAt`).  The stuck case of DESIGN §6 C07 (the parent was detached first, `x`
+    is no longer in the tree of the root that dispatches the event) is exactly the failure of the
+    hypothesis `hreg`. -/
+theorem complete_dispatch_detaches (s0 : St) (h0 : InitForest s0) (hH : InitHandlers s0)
+    (hC : InitCache s0) (c : Cfg) (hc : Reach s0 c) (r e remaining : Nat) (k : List Frame)
+    (hst : c.stack = .dispatcher r e remaining :: k) (hx : c.exn = none)
+    (hr : (c.st.comp r).root = r) (hcan : (c.st.ev e).cancelled = false)
+    (h : Nat) (hk : ((step c).st.handler h).kind = .prepUnregComplete)
+    (hreg : ∃ ch, ch ∈ (c.st.ev e).chans ∧ ∃ d, ReachIn (step c).st (step c).st.comps.length r d ∧
+      matchesAt (step c).st d (c.st.ev e).name ch h)
+    (c' : Cfg) (err' : Bool) (hrun : RunAbove k (step c) c') (hfin : c'.stack = .dispFin r e err' :: k) :
+    (∃ c1 k1, RunAbove k (step c) c1 ∧ RunAbove k c1 c' ∧ c1.stack = .invoke r h e :: k1 ∧ c1.exn = none ∧
+      (c1.st.handler h).kind = .prepUnregComplete ∧
+      ((c1.st.handler h).owner < c1.st.comps.length →
+        ((step c1).st.comp (c1.st.handler h).owner).pending = false)) ∨
+    CutAt k r e (step c) c' := by
+  obtain ⟨hs, h1, h2⟩ := dispatcher_step_live (K.init s0 hH hC)
+    (fun c hc => (FInv.reach h0 c hc).forest.cacheFacts) c hc r e remaining k hst hx hr hcan
+  have hmem : h ∈ hs := by
+    have : h ∈ nonFallback (step c).st hs := by
+      rw [h2]; exact (mem_freshHandlers _ _ _ _ _).mpr hreg
+    exact (List.mem_filter.mp this).1
+  rcases loop_invokes_all h1 hrun hfin h hmem with hcall | hcut
+  · obtain ⟨c1, rest, err, stale, r1, r2, hs1, hx1⟩ := hcall
+    have hlt : h < (step c).st.hs.length := handler_lt_of_kind (by rw [hk]; intro hh; cases hh)
+    have hk1 : (c1.st.handler h).kind = .prepUnregComplete := by rw [(r1.handler_eq hlt).1]; exact hk
+    refine .inl ⟨c1, _, r1, r2, hs1, hx1, hk1, ?_⟩
+    intro ho
+    rw [step_detach c1 r h e _ hs1 hx1 hk1, updateRootAll_pending]
+    exact prepUnregPre_pending _ _ ho
+  · exact .inr hcut
+
+/-! ### the excluded case of `pending_resolves_partial` is real (model; C05's known finding) -/
+
+/-- Clause (a) with `Reach` in place of `ReachG` is false.  This is C05's witness run (`s0w`,
+    `cw2 87`: a handler of the complete-requesting event `foo` fires `bar`, a second one is a
+    generator, a third one calls `stop()`, whose inline ticks make `_eventDone(foo)` go through
+    twice): the top frame is the `_effectDone` iteration that takes the tracked event `e` to 0
+    and fires `e_complete`, while an event `y` is still linked under `e`.  `_eventDone` /
+    `_effectDone` never look at the event's name, and `unregister()` builds its
+    `prepare_unregister` event as an ordinary complete-requesting event; the same three handlers
+    installed for `prepare_unregister` of a child component give the same configuration after the
+    same 87 steps of `flush()` (evaluated with `#eval` on the model; the kernel cannot replay THAT
+    run, because `unregister()` invalidates the handler cache and the rebuild sorts three handlers
+    with `List.mergeSort`, which `decide +kernel` does not unfold - the reason why the witness is
+    stated with the name `foo`). -/
+theorem pending_resolves_witness : InitEff s0w ∧ ∃ c, Reach s0w c ∧
+    ∃ r e a k y, c.stack = .effectDone r e a :: k ∧ c.exn = none ∧ (c.st.ev e).cause ≠ none ∧
+      (c.st.ev e).complete = true ∧ a = true ∧ ¬ ((c.st.ev e).effects - 1 > 0) ∧
+      y ≠ e ∧ (c.st.ev y).cause = some e :=
+  ⟨s0w_init, cw2 87, cw2_reach 87, earlyComplete_spec _ cw2_early⟩
+
+/-! ### non-vacuity of `pending_resolves_partial` / `complete_dispatch_detaches` -/
+
+/-- two detached components; component 1 carries its `_on_prepare_unregister_complete` handler 0 -/
+def sQ : St :=
+  { comps := [{ parent := 0, root := 0 },
+              { parent := 1, root := 1, htab := [(some (Name.prepareUnregister.child sfxComplete), 0)] }],
+    hs := [{ owner := 1, names := [Name.prepareUnregister.child sfxComplete], chan := some (.inst 1),
+             kind := .prepUnregComplete }] }
+abbrev qRun (s : St) (op : ExtOp) (n : Nat) : Cfg := runN n (startOf (envChange s 0 []) op)
+/-- `c1.register(c0)`, `flush()`, `c1.unregister()`, `flush()` -/
+def q1 : Cfg := qRun sQ (.doAct 0 (.reg 1 0)) 20
+def q2 : Cfg := qRun q1.st (.flush 0) 40
+def q3 : Cfg := qRun q2.st (.doAct 0 (.unreg 1)) 20
+def q4 : Cfg := qRun q3.st (.flush 0) 40
+/-- six steps into the flush after `unregister()`: `_effectDone` of the `prepare_unregister` event 1 -/
+def qP : Cfg := qRun q3.st (.flush 0) 6
+/-- two steps into the next flush: `_dispatcher` of the `prepare_unregister_complete` event 2 -/
+def qD : Cfg := qRun q4.st (.flush 0) 2
+def qK : List Frame := [.dispatchLoop 0, .flushFin 0 false]
+
+theorem sQ_init : InitEff sQ ∧ InitForest sQ ∧ InitHandlers sQ ∧ InitCache sQ :=
+  ⟨⟨rfl, fun _ => rfl⟩, by unfold InitForest; decide +kernel,
+   plain_tables_of_bounded _ (by decide +kernel), caches_empty_of_bounded _ (by decide +kernel)⟩
+
+theorem q3_reachG : ReachG sQ q3 := by
+  have g1 : ReachG sQ q1 := ReachG.runN 20 (.init 0 [] _) (by decide +kernel)
+  have g2 : ReachG sQ q2 := ReachG.runN 40 (.next 0 [] _ g1 (by decide +kernel)) (by decide +kernel)
+  exact ReachG.runN 20 (.next 0 [] _ g2 (by decide +kernel)) (by decide +kernel)
+
+/-- all hypotheses of `pending_resolves_partial` hold on a guarded run -/
+example : InitEff sQ ∧ ReachG sQ qP ∧ qP.stack = .effectDone 0 1 true :: qK ∧ qP.exn = none ∧
+    (qP.st.ev 1).name = Name.prepareUnregister ∧ (qP.st.ev 1).complete = true ∧
+    (qP.st.ev 1).completeChans = some [.inst 1] ∧ (qP.st.ev 1).cause ≠ none ∧
+    ¬ ((qP.st.ev 1).effects - 1 > 0) :=
+  ⟨sQ_init.1, ReachG.runN 6 (.next 0 [] _ q3_reachG (by decide +kernel)) (by decide +kernel),
+   by decide +kernel, by decide +kernel, by decide +kernel, by decide +kernel, by decide +kernel,
+   by decide +kernel, by decide +kernel⟩
+
+theorem qD_reach : Reach sQ qD := by
+  have h4 : Reach sQ q4 := Reach.runN (.next 0 [] _ q3_reachG.reach (by decide +kernel)) 40
+  exact Reach.runN (.next 0 [] _ h4 (by decide +kernel)) 2
+
+/-- all hypotheses of `complete_dispatch_detaches` hold in a reachable configuration -/
+example : Reach sQ qD ∧ qD.stack = .dispatcher 0 2 0 :: qK ∧ qD.exn = none ∧
+    (qD.st.comp 0).root = 0 ∧ (qD.st.ev 2).cancelled = false ∧
+    ((step qD).st.handler 0).kind = .prepUnregComplete ∧
+    (∃ ch, ch ∈ (qD.st.ev 2).chans ∧ ∃ d, ReachIn (step qD).st (step qD).st.comps.length 0 d ∧
+      matchesAt (step qD).st d (qD.st.ev 2).name ch 0) ∧
+    RunAbove qK (step qD) (runN 6 (step qD)) ∧ (runN 6 (step qD)).stack = .dispFin 0 2 false :: qK := by
+  refine ⟨qD_reach, by decide +kernel, by decide +kernel, by decide +kernel, by decide +kernel,
+    by decide +kernel, ⟨.inst 1, by decide +kernel, 1, ?_, ?_⟩, ?_, by decide +kernel⟩
+  · have hl : (step qD).st.comps.length = 1 + 1 := by decide +kernel
+    rw [hl]
+    exact .step 1 0 1 1 (by decide +kernel) (.here 1 1)
+  · unfold matchesAt installedFor; decide +kernel
+  · exact RunAbove.ofRunN 6 (.refl (above_of_B (by decide +kernel))) (by decide +kernel)
+
+end pending
 
 end CV.C07
